@@ -1,3 +1,17 @@
+// Package refmodel is an independent reference evaluator for JSON Schema
+// draft 2020-12 and draft-07, written from the specifications and used as a
+// test oracle. It depends on the standard library only.
+//
+// Documents and instances are raw JSON decoded with UseNumber (see
+// DecodeJSON); numbers are compared as exact rationals. Build indexes a root
+// document, loads referenced documents from an in-memory "loader" and resolves
+// every reference up front; Validate then evaluates instances without
+// short-circuiting, optionally reporting every keyword evaluation.
+//
+// Files: uri.go (RFC 3986 resolution), pointer.go (JSON pointers restricted to
+// schema positions), index.go (documents, resources, anchors, reference
+// resolution), compile.go (keyword shapes), eval.go (evaluation), equal.go
+// (JSON values).
 package refmodel
 
 import (
